@@ -33,7 +33,7 @@ RULE = (
 )
 ASSUMPTIONS = ["helper parameters annotated Any (eq/ne/gt/ge/lt/le value, call_method args) are exercised as constants only"]
 FLOORS = {"bracketings_compared": (1500, 30000), "identity_checks": (400, 8000), "split_checks": (1500, 30000), "rshift_checks": (400, 8000),
-          "param_key_checks": (400, 8000), "helper_cases": (170, 170), "helper_cases_with_option_argument": (70, 70), "helpers_covered": (60, 60)}
+          "param_key_checks": (400, 8000), "reuse_checks": (300, 6000), "helper_cases": (170, 170), "helper_cases_with_option_argument": (70, 70), "helpers_covered": (60, 60)}
 SHARDS_QUICK = 2
 
 
@@ -191,6 +191,20 @@ def algebra_case(ctx, names, o, x, all_brackets=True):
             xx = st.evaluate(copy.deepcopy(o))(xx)
         if canon(xx) != expected[1]:
             ctx.violation("iteration-order", f"composing list(pipeline) in order gives {short(canon(xx))}, the pipeline {short(expected)}", W)
+            return
+    # the evaluated pipeline is a plain function of its input: it can be applied any number of times
+    if expected[0] == "ok":
+        f = pipe.evaluate(copy.deepcopy(o))
+        outs = [canon(f(copy.deepcopy(x))) for _ in range(3)]
+        ctx.count("reuse_checks")
+        if any(v != expected[1] for v in outs):
+            ctx.violation("evaluated-pipeline-not-reusable", f"applying pipeline.evaluate(o) three times gives {short(outs)}; each should be {short(expected[1])}", W)
+            return
+        # ... also when it is the function argument of a helper (map over several elements)
+        mapped = F.map(pipe)
+        got_list = observe(lambda: list(mapped.transform([copy.deepcopy(x), copy.deepcopy(x)], copy.deepcopy(o))))
+        if got_list != ("ok", ("L", (expected[1], expected[1]))):
+            ctx.violation("evaluated-pipeline-not-reusable", f"F.map(pipeline) over two elements gives {short(got_list)}; each element should be {short(expected[1])}", W)
             return
     # split: (p + q).transform == q.transform(p.transform)
     for i in range(len(names) + 1):
